@@ -176,13 +176,18 @@ def forests(n):
 
 
 def s3_texts(nmax):
-    for n in range(1, nmax + 1):
-        for par in forests(n):
+    shapes = [par for n in range(1, nmax + 1) for par in forests(n)]
+    # plus the chains (nesting depth 4, 5, 6) that the bound on the number of elements would leave out
+    chains = [tuple(range(-1, n - 1)) for n in (4, 5, 6) if n > nmax]
+    for par in shapes + chains:
+        n = len(par)
+        if True:
             names = []
             for i, p in enumerate(par):
                 names.append(LEVEL1[sum(1 for q in par[:i] if q == -1)] if p == -1 else 'n%d' % i)
-            for cards in itertools.product(CARDS, repeat=n):
-                for selfrec in range(1 << n):
+            deep = par in chains
+            for cards in (itertools.product(CARDS, repeat=n) if n <= 4 else [(c,) * n for c in CARDS]):
+                for selfrec in ((0, (1 << n) - 1) if deep else range(1 << n)):
                     lines = ['element mujoco {', '  model : string']
                     lines += ['  child %s %s' % (names[i], cards[i]) for i in range(n) if par[i] == -1]
                     lines += ['}']
